@@ -908,6 +908,25 @@ func (tb *TermBuilder) call(ctx *Ctx, c *ssa.Call, extract int) *Term {
 				alts = append(alts, t)
 			}
 		}
+		// a pure helper whose result is built in local memory (make/copy/in-place
+		// edits) is named as an application of the function to its arguments
+		if len(alts) >= 1 && isPureFn(callee, 0) {
+			opaque := false
+			for _, al := range alts {
+				if al.contains(func(x *Term) bool {
+					return x.Op == "addr" || x.Op == "make" || x.Op == "load" || x.Op == "opcode" || x.Op == "builtin"
+				}) {
+					opaque = true
+				}
+			}
+			if opaque {
+				var args []*Term
+				for _, ar := range com.Args {
+					args = append(args, tb.Term(ctx, ar))
+				}
+				return tb.mk("call", name, 0, args...)
+			}
+		}
 		if len(alts) == 1 {
 			return alts[0]
 		}
@@ -1750,4 +1769,57 @@ func returnTerms(tb *TermBuilder, f *ssa.Function) []*Term {
 		}
 	}
 	return out
+}
+
+// isPureFn: the function (transitively) calls only pure primitives, builtins
+// and in-memory VM opcodes: its result is a function of its arguments.
+var pureFnCache = map[*ssa.Function]int{}
+
+func isPureFn(fn *ssa.Function, depth int) bool {
+	if v, ok := pureFnCache[fn]; ok {
+		return v == 1
+	}
+	pureFnCache[fn] = 1 // optimistic for recursion
+	res := true
+	for _, b := range fn.Blocks {
+		for _, ins := range b.Instrs {
+			ci, ok := ins.(ssa.CallInstruction)
+			if !ok {
+				if _, isG := ins.(*ssa.Store); isG {
+					if _, toGlobal := ins.(*ssa.Store).Addr.(*ssa.Global); toGlobal {
+						res = false
+					}
+				}
+				continue
+			}
+			if _, isB := ci.Common().Value.(*ssa.Builtin); isB {
+				continue
+			}
+			c := ci.Common().StaticCallee()
+			switch {
+			case c == nil:
+				res = false
+			case inlinable(c):
+				if depth > 12 || !isPureFn(c, depth+1) {
+					res = false
+				}
+			default:
+				n := fq(c)
+				if !purePrims[n] && !strings.HasPrefix(n, "neogointernal.") && !strings.HasPrefix(n, "util.Remove") {
+					res = false
+				}
+				switch n {
+				case "runtime.CheckWitness", "runtime.GetTime", "native/ledger.CurrentIndex", "native/neo.GetCommittee", "native/roles.GetDesignatedByRole",
+					"runtime.GetCallingScriptHash", "native/management.GetContract", "native/management.GetContractByID", "native/management.HasMethod":
+					res = false // depends on the invocation context, keep these visible in terms
+				}
+			}
+		}
+	}
+	if res {
+		pureFnCache[fn] = 1
+	} else {
+		pureFnCache[fn] = 0
+	}
+	return res
 }
